@@ -258,6 +258,7 @@ def ref_union(items):
 # ----------------------------------------------------------------------------------------- implementation
 def _run(case):
     impl.load()
+    import functools
     import numpy as np
     import pandas as pd
     from vivarium import Component
@@ -328,6 +329,42 @@ def _run(case):
         f.__name__ = "probe_" + tag
         return f
 
+    class _Holder:
+        """owner of a bound-method probe"""
+        def __init__(self, f, tag):
+            self._f, self.tag = f, tag
+
+        def method(self, *args, **kwargs):
+            return self._f(*args, **kwargs)
+
+    class _CallableObject:
+        """an anonymous callable object: no `name`, no `__self__`, no `__name__`"""
+        def __init__(self, f):
+            self._f = f
+
+        def __call__(self, *args, **kwargs):
+            return self._f(*args, **kwargs)
+
+    class _NamedCallable(_CallableObject):
+        """a callable object with a `name` attribute (like a Pipeline or a lookup table)"""
+        def __init__(self, f, name):
+            super().__init__(f)
+            self.name = name
+
+    def as_callable(kind, f, tag):
+        """the same probe as each kind of Python callable the framework may be handed"""
+        if kind == "lambda":
+            return lambda *args, **kwargs: f(*args, **kwargs)
+        if kind == "method":
+            return _Holder(f, tag).method
+        if kind == "partial":
+            return functools.partial(f)
+        if kind == "object":
+            return _CallableObject(f)
+        if kind == "named":
+            return _NamedCallable(f, "named_" + tag)
+        return f
+
     class Reg(Component):
         def __init__(self, k, acts):
             super().__init__()
@@ -343,16 +380,16 @@ def _run(case):
                 try:
                     if act["op"] == "mod":
                         role = "list-mod" if act["eff"].split(":")[0] in ("gen", "fgen") else "replace-mod"
-                        b.value.register_value_modifier(act["pipe"], mk_probe(act["tag"], act["eff"], role))
+                        b.value.register_value_modifier(act["pipe"], as_callable(act.get("callable", "function"), mk_probe(act["tag"], act["eff"], role), act["tag"]))
                     else:
-                        src = mk_probe(act["tag"], act["eff"], "source")
+                        src = as_callable(act.get("callable", "function"), mk_probe(act["tag"], act["eff"], "source"), act["tag"])
                         post = act["post"]
                         if act.get("via") == "rate":
                             b.value.register_rate_producer(act["pipe"], source=src)
                         else:
                             pp = {"none": None, "rescale": rescale_post_processor, "union": union_post_processor}.get(post, 0)
                             if pp == 0:
-                                pp = mk_probe("post", post[2:], "post")
+                                pp = as_callable(act.get("post_callable", "function"), mk_probe("post", post[2:], "post"), "post")
                             b.value.register_value_producer(
                                 act["pipe"], source=src,
                                 preferred_combiner=list_combiner if act["comb"] == "list" else replace_combiner,
@@ -522,7 +559,11 @@ class C14(Prop):
                    "eff": f"{'lfgen' if shape == 'frame' else 'lgen'}:{pq()}:{pc()}:0{tail}", "via": "value"}
             for _ in range(nm):
                 acts.append({"op": "mod", "pipe": name, "eff": f"{'fgen' if shape == 'frame' else 'gen'}:{pq()}:{pc()}:0{tail}"})
+        kinds = ["function", "function", "lambda", "method", "partial", "object", "named"]
+        src["callable"] = rng.choice(kinds)
+        src["post_callable"] = rng.choice(kinds)
         for a in acts:
+            a["callable"] = rng.choice(kinds)
             ids[0] += 1
             a["tag"] = f"m{ids[0]}"
             if a["eff"].startswith("app:"):
@@ -672,6 +713,15 @@ class C14(Prop):
                     "calls": [c("p0", [3, 1, 0, 2], after=1), c("p1", [1, 2, 3], after=2), c("p0", "event", after=2, where="listener"),
                               c("p1", "all", after=1, where="listener"), c("p2", [3, 0], after=1), c("p3", "all", after=2), c("p0", [1], after=0),
                               c("p0", [3], after=3, skip=True)]})
+        # every kind of Python callable as modifier, source and post-processor: function, lambda, bound method, functools.partial,
+        # callable object, callable object with a `name`
+        kinds = ["function", "lambda", "method", "partial", "object", "named"]
+        out.append({"stream": "exact", "pop": 2, "min_step_ns": year8, "mults": None, "driver_pos": 1, "untrack": [],
+                    "comps": [[dict(m("p0", f"app:{k + 1}", f"m{k + 1}"), callable=kind) for k, kind in enumerate(kinds)],
+                              [dict(s("p0", "replace", "c:app:99", "mark:0"), callable="object", post_callable="partial")]
+                              + [dict(s(f"q{k}", "replace", "c:aff:2:1:0:0", "gen:1/2:1/4:0"), callable=kind, post_callable=kind) for k, kind in enumerate(kinds)]
+                              + [dict(m(f"q{k}", "aff:2:1:0:0", f"m{10 + k}"), callable=kinds[-1 - k]) for k in range(6)]],
+                    "calls": [c("p0", [1, 0])] + [c(f"q{k}", [0, 1]) for k in range(6)]})
         # union of DataFrames
         out.append({"stream": "exact", "pop": 3, "min_step_ns": year8, "mults": None, "driver_pos": 0,
                     "comps": [[s("p0", "list", "union", "lfgen:1/8:1/16:0:2"), m("p0", "fgen:1/4:0:0:2", "m1"), m("p0", "fgen:0:1/16:0:2", "m2")]],
@@ -977,6 +1027,7 @@ class C14(Prop):
         first_src_pos = {}
         for k, r in enumerate(obs["reg"]):
             t.append(f"reg:{r['op']}:{'ok' if r['outcome'] == 'ok' else 'rejected'}")
+            t.append(f"callable:{r['op']}:{acts[(r['pipe'], r['tag'])].get('callable', 'function')}")
             if r["op"] == "src" and r["pipe"] not in first_src_pos:
                 first_src_pos[r["pipe"]] = (k, r["comp"])
         for k, r in enumerate(obs["reg"]):
